@@ -409,9 +409,6 @@ impl<Y: Sys> Visitor<Y> for ResetRemoveCheck {
         for m in h.new_masks() {
             for (i, e) in h.table[m as usize].iter().enumerate() {
                 let v0 = Y::rr_view(&e.s);
-                if Y::pending(&e.s) > 0 {
-                    st.pending_states += 1;
-                }
                 for c in grid.iter() {
                     let mut s1 = e.s.clone();
                     Y::reset_remove(&mut s1, c);
@@ -483,9 +480,6 @@ impl<Y: Sys> Visitor<Y> for SerdeCheck {
             for (i, e) in h.table[m as usize].iter().enumerate() {
                 st.checks += 1;
                 st.aux_transitions += 1;
-                if Y::pending(&e.s) > 0 {
-                    st.pending_states += 1;
-                }
                 let j = match Y::to_json(&e.s) {
                     Ok(j) => j,
                     Err(err) => {
@@ -562,9 +556,6 @@ impl<Y: Sys> Visitor<Y> for EqResidue {
                 sink.fail(h, kind, m, || format!("K={:?}: {} = {:?} but {} = {:?}", bits(m), h.derivation(m, 0), ents[0].s, h.derivation(m, 1), ents[1].s));
             }
             for (i, e) in ents.iter().enumerate() {
-                if Y::pending(&e.s) > 0 {
-                    st.pending_states += 1;
-                }
                 st.outcome(&format!("{:?}", Y::reads(&e.s)));
                 if !closed {
                     continue;
